@@ -74,6 +74,20 @@ TARGETS = [
     ("vsQuery", "xrspatial/viewshed.py", "_max_grad_in_status_struct",
      dict(tree_vals="f2", tree_nodes="i2", root="int", distance="num", angle="num", gradient="num")),
     ("vsDelete", "xrspatial/viewshed.py", "_delete_from_tree", dict(tree_vals="f2", tree_nodes="i2", root="int", key="num")),
+    # event geometry, event list and the radial sweep of viewshed.py
+    ("vsEventRowCol", "xrspatial/viewshed.py", "_calculate_event_row_col",
+     dict(event_type="int", event_row="int", event_col="int", viewpoint_row="int", viewpoint_col="int")),
+    ("vsEventPos", "xrspatial/viewshed.py", "_calc_event_pos",
+     dict(event_type="int", event_row="int", event_col="int", viewpoint_row="int", viewpoint_col="int")),
+    ("vsAngle", "xrspatial/viewshed.py", "_calculate_angle",
+     dict(event_x="num", event_y="num", viewpoint_x="int", viewpoint_y="int")),
+    ("vsVerticalAng", "xrspatial/viewshed.py", "_get_vertical_ang",
+     dict(viewpoint_elev="num", distance_to_viewpoint="num", elev="num")),
+    ("vsInitEventList", "xrspatial/viewshed.py", "_init_event_list",
+     dict(event_list="f2", raster="f2", vp_row="int", vp_col="int", data="f2", visibility_grid="f2")),
+    ("vsSweep", "xrspatial/viewshed.py", "_viewshed_cpu_sweep",
+     dict(raster="f2", vp_row="int", vp_col="int", vp_elev="num", vp_target="num", ew_res="num", ns_res="num",
+          event_rcts="i2", event_aes="f2", data="f2", visibility_grid="f2")),
 ]
 
 # functions that stay calls: name -> (number of numeric args, number of trailing integer args)
@@ -95,6 +109,11 @@ def src(n):
         return ast.unparse(n)
     except Exception:
         return "<?>"
+
+
+FUN_ALIAS = {"math.sqrt": "np.sqrt", "math.atan": "np.arctan", "math.fabs": "np.abs", "math.atan2": "np.arctan2",
+             "math.sin": "np.sin", "math.cos": "np.cos", "math.exp": "np.exp", "math.asin": "np.arcsin",
+             "sqrt": "np.sqrt", "fabs": "np.abs"}
 
 
 def lstr(s):
@@ -126,6 +145,12 @@ class Module:
         self.funcs = {n.name: n for n in self.tree.body if isinstance(n, ast.FunctionDef)}
         self.consts = {}
         self.fconsts = {}
+        self.alias = {}            # local name -> qualified name for `from math import atan, pi as PI`
+        for n in self.tree.body:
+            if isinstance(n, ast.ImportFrom) and n.module in ("math", "numpy"):
+                pre = "math." if n.module == "math" else "np."
+                for a in n.names:
+                    self.alias[a.asname or a.name] = pre + a.name
         for n in self.tree.body:
             if isinstance(n, ast.Assign) and len(n.targets) == 1 and isinstance(n.targets[0], ast.Name):
                 v = const_int(n.value)
@@ -210,6 +235,16 @@ class Fn:
             if p not in self.params and p in bound:
                 raise Untranslatable(f"declared closure variable {p} is bound inside the function")
         self.infer()
+
+    def fname(self, call):
+        """canonical name of the function a call applies: `from math import atan` / `math.atan` -> `np.arctan`"""
+        f = src(call.func)
+        f = self.mod.alias.get(f, f)
+        return FUN_ALIAS.get(f, f)
+
+    def is_pi(self, e):
+        return (isinstance(e, ast.Name) and e.id not in self.types and self.mod.alias.get(e.id) in ("math.pi", "np.pi")) \
+            or (isinstance(e, ast.Attribute) and src(e) in ("np.pi", "math.pi", "numpy.pi"))
 
     # ---------------------------------------------------------------- names
     def v(self, name):
@@ -375,6 +410,8 @@ class Fn:
             if isinstance(e.value, float):
                 return "num"
             raise Untranslatable("constant " + src(e))
+        if self.is_pi(e):
+            return "num"
         if isinstance(e, ast.Name):
             if e.id in self.types:
                 return self.types[e.id]
@@ -425,11 +462,13 @@ class Fn:
             if isinstance(base, ast.Name):
                 ty = self.types.get(base.id)
                 if ty in ARR:
+                    if ARR[ty][1] == 2 and not isinstance(e.slice, (ast.Tuple, ast.Slice)) and e.value is base:
+                        return "f1" if ARR[ty][0] == "F" else "i1"       # m[r]: a row view
                     return "num" if ARR[ty][0] == "F" else "int"
                 return None
             raise Untranslatable("subscript " + src(e))
         if isinstance(e, ast.Call):
-            fn = src(e.func)
+            fn = self.fname(e)
             if fn in ("len",):
                 return "int"
             if fn in ("min", "max"):
@@ -541,6 +580,14 @@ class Fn:
         if not isinstance(e, ast.Call):
             return None
         fn = src(e.func)
+        if fn == "np.array" and len(e.args) == 1 and isinstance(e.args[0], ast.List) and e.args[0].elts:
+            kind = self.dtype_kind(e)
+            if kind is None:
+                tys = [self.sort(x) for x in e.args[0].elts]
+                if None in tys:
+                    return None
+                kind = "I" if all(t in ("int", "bool") for t in tys) else "F"
+            return "f1" if kind == "F" else "i1"
         if fn in ("np.zeros", "np.ones", "np.empty", "np.full"):
             shape = e.args[0] if e.args else next((k.value for k in e.keywords if k.arg == "shape"), None)
             if shape is None:
@@ -620,7 +667,7 @@ class Fn:
                 return f"(.ld1 {lstr(name)} {self.ie(idx[0])})"
             return f"(.ld2 {lstr(name)} {self.ie(idx[0])} {self.ie(idx[1])})"
         if isinstance(e, ast.Call):
-            fn = src(e.func)
+            fn = self.fname(e)
             if fn == "len" and isinstance(e.args[0], ast.Name) and self.types.get(e.args[0].id) in ARR:
                 return f"(.dim {lstr(self.arr_name(e.args[0].id))} 0)"
             if fn in ("min", "max") and len(e.args) >= 2 and not e.keywords:
@@ -673,6 +720,8 @@ class Fn:
             return f"(.ofInt {self.ie(e)})"
         if t == "bool":
             raise Untranslatable("boolean used as a number: " + src(e))
+        if self.is_pi(e):
+            return ".pi"
         if isinstance(e, ast.Constant):
             from fractions import Fraction
             fr = Fraction(repr(e.value)) if not isinstance(e.value, int) else Fraction(e.value)
@@ -711,7 +760,7 @@ class Fn:
                 return f"(.ld1 {lstr(name)} {self.ie(idx[0])})"
             return f"(.ld2 {lstr(name)} {self.ie(idx[0])} {self.ie(idx[1])})"
         if isinstance(e, ast.Call):
-            fn = src(e.func)
+            fn = self.fname(e)
             if fn in ("np.sqrt", "sqrt", "math.sqrt"):
                 return f"(.un .sqrt {self.fe(e.args[0])})"
             if fn in RED and len(e.args) == 1 and not e.keywords:
@@ -772,6 +821,8 @@ class Fn:
         if isinstance(e, ast.Call) and src(e.func) in ("np.isnan", "np.isfinite"):
             k = "isnan" if src(e.func) == "np.isnan" else "isfinite"
             return f"(.{k} {self.fe(e.args[0])})"
+        if isinstance(e, ast.Call) and src(e.func) == "abs" and len(e.args) == 1 and self.sort(e.args[0]) == "bool":
+            return self.be(e.args[0])          # abs(True) = 1, abs(False) = 0: the same truth value
         t = self.need_sort(e)
         if t == "bool":
             if isinstance(e, ast.Name):
@@ -853,7 +904,7 @@ class Fn:
             ty = sub.types[p]
             if ty in ARR:
                 view = sub.amap.get(p)
-                if isinstance(view, tuple):
+                if isinstance(view, tuple) and view[3] is not None:
                     stmts.append(f"(.setI {lstr(view[2])} {self.ie(view[3])})")
                 continue
             stmts.append(self.assign_text(sub.v(p), ty, a))
@@ -861,6 +912,7 @@ class Fn:
         self.pre.extend(stmts)
         self.pre.append(f"(.scope {body})")
         self.report["inlined"].append(name)
+        self.last_ret_types = list(sub.ret_types or [])
         if sub.ret_types is None:
             return []
         out = []
@@ -958,6 +1010,8 @@ class Fn:
             raise Untranslatable("expression statement " + src(s))
         if isinstance(s, ast.Pass):
             return []
+        if isinstance(s, ast.Assert):
+            return self.with_pre(lambda: [f"(.ite {self.be(s.test)}\n  .skip\n  (.fail \"AssertionError\"))"])
         if isinstance(s, ast.Raise):
             what = src(s.exc.func) if isinstance(s.exc, ast.Call) else src(s.exc) if s.exc else "raise"
             return [f"(.fail {lstr(what)})"]
@@ -1028,6 +1082,22 @@ class Fn:
         if len(s.targets) != 1:
             raise Untranslatable("chained assignment")
         t, value = s.targets[0], s.value
+        if isinstance(t, ast.Tuple) and any(isinstance(e, ast.Subscript) for e in t.elts) \
+                and isinstance(value, ast.Call) and isinstance(value.func, ast.Name) and self.mod.jitted(value.func.id):
+            # a[i], a[j] = f(...): the results go to temporaries first, then the stores in order
+            vals = self.inline_value(value)
+            tys = self.last_ret_types
+            if len(vals) != len(t.elts):
+                raise Untranslatable("tuple arity " + src(s))
+            out = []
+            for e, val, ty in zip(t.elts, vals, tys):
+                self.tmp += 1
+                tmpname = f"tup{self.tmp}$v"
+                self.types[tmpname] = ty
+                setter = {"int": "setI", "num": "setF", "bool": "setB"}[ty]
+                out.append(f"(.{setter} {lstr(self.v(tmpname))} {val})")
+                out += self.assign(ast.Assign(targets=[e], value=ast.Name(id=tmpname, ctx=ast.Load())))
+            return out
         if isinstance(t, ast.Tuple):
             if not all(isinstance(e, ast.Name) for e in t.elts):
                 raise Untranslatable("tuple target " + src(t))
@@ -1085,6 +1155,9 @@ class Fn:
                 if ARR[ty][0] == "F":
                     return [f"(.allocF {lstr(nm)} {dims} {self.fe(value)})"]
                 return [f"(.allocI {lstr(nm)} {dims} {self.ie(value)})"]
+            if isinstance(t.value, ast.Name) and self.types.get(t.value.id) in ("f2", "i2") \
+                    and not isinstance(t.slice, (ast.Tuple, ast.Slice)):
+                return self.row_store(t, value)
             name, idx = self.subscript(t)
             kind = ARR[self.types[t.value.id if isinstance(t.value, ast.Name) else t.value.value.id]][0]
             ix = " ".join(self.ie(i) for i in idx)
@@ -1100,12 +1173,51 @@ class Fn:
             return [f"(.stI{len(idx)} {lstr(name)} {ix} {self.ie(value)})"]
         raise Untranslatable("assignment target " + src(t))
 
+    def row_store(self, t, value):
+        """`m[r] = <1-D array | row view | m2[r2]>`: the row is copied cell by cell (left to right)"""
+        base = self.arr(t.value.id)
+        if isinstance(base, tuple):
+            raise Untranslatable("row of a row view")
+        kind = ARR[self.types[t.value.id]][0]
+        self.tmp += 1
+        k, r = self.v(f"rowcp{self.tmp}$k"), self.v(f"rowcp{self.tmp}$r")
+        out = [f"(.setI {lstr(r)} {self.ie(t.slice)})"]
+        kk = ast.Name(id="$row:" + k, ctx=ast.Load())
+        if isinstance(value, ast.Name) and self.types.get(value.id) in ("f1", "i1"):
+            srcexpr = ast.Subscript(value=value, slice=kk, ctx=ast.Load())
+        elif isinstance(value, ast.Subscript) and isinstance(value.value, ast.Name) \
+                and self.types.get(value.value.id) in ("f2", "i2") and not isinstance(value.slice, (ast.Tuple, ast.Slice)):
+            r2 = self.v(f"rowcp{self.tmp}$s")
+            out.append(f"(.setI {lstr(r2)} {self.ie(value.slice)})")
+            srcexpr = ast.Subscript(value=value.value, slice=ast.Tuple(elts=[ast.Name(id="$row:" + r2, ctx=ast.Load()), kk],
+                                                                       ctx=ast.Load()), ctx=ast.Load())
+        else:
+            raise Untranslatable("row assignment " + src(value))
+        val = self.fe(srcexpr) if kind == "F" else self.ie(srcexpr)
+        st = "stF2" if kind == "F" else "stI2"
+        out.append(f"(.forRange {lstr(k)} (.lit 0) (.dim {lstr(base)} 1) (.lit 1)\n"
+                   f"  (.{st} {lstr(base)} (.var {lstr(r)}) (.var {lstr(k)}) {val}))")
+        return out
+
     def alloc(self, name, ty, value):
         kind, nd = ARR[ty]
-        nm = self.arr_name(name)
+        if isinstance(value, ast.Subscript) and isinstance(value.value, ast.Name) \
+                and self.types.get(value.value.id) in ("f2", "i2") and not isinstance(value.slice, (ast.Tuple, ast.Slice)):
+            nm = None
+        else:
+            nm = self.arr_name(name)
         factor = None
         if isinstance(value, ast.BinOp) and isinstance(value.op, ast.Mult):      # np.ones(...) * c
             value, factor = value.left, value.right
+        if isinstance(value, ast.Subscript) and isinstance(value.value, ast.Name) \
+                and self.types.get(value.value.id) in ("f2", "i2") and not isinstance(value.slice, (ast.Tuple, ast.Slice)):
+            # name = m[r]: a row *view* (numpy semantics): later reads and writes through the name go to m[r, :]
+            base = self.arr(value.value.id)
+            if isinstance(base, tuple):
+                raise Untranslatable("row of a row view")
+            rowvar = self.v("row$" + name)
+            self.amap[name] = ("row", base, rowvar, None)
+            return [f"(.setI {lstr(rowvar)} {self.ie(value.slice)})"]
         if self.is_where0(value):
             # nm = np.where(mask)[0]: the positions of the non-zero entries of a 0/1 mask, in order
             mask = self.arr_name(value.value.args[0].id)
@@ -1151,6 +1263,14 @@ class Fn:
         if not isinstance(value, ast.Call):
             raise Untranslatable("array binding " + src(value))
         fn = src(value.func)
+        if fn == "np.array" and len(value.args) == 1 and isinstance(value.args[0], ast.List) and factor is None:
+            elts = value.args[0].elts
+            zero = "(.lit 0 1)" if kind == "F" else "(.lit 0)"
+            out = [f"(.alloc{kind} {lstr(nm)} [(.lit {len(elts)})] {zero})"]
+            for k, x in enumerate(elts):
+                val = self.fe(x) if kind == "F" else self.ie(x)
+                out.append(f"(.st{kind}1 {lstr(nm)} (.lit {k}) {val})")
+            return out
         if fn in ("np.zeros", "np.ones", "np.empty", "np.full"):
             shape = value.args[0] if value.args else next(k.value for k in value.keywords if k.arg == "shape")
             dims = self.alloc_dims(shape)
